@@ -1,4 +1,6 @@
 import HioModel.Sched.LemmasC02
+import HioModel.Sched.Lemmas2C02
+import HioModel.Sched.Thm3C02
 /-!
 # C02 — a stopping scheduler exits every live doer, in reverse enter order, children first
 
@@ -53,6 +55,22 @@ among the entered doers extends; pools are then never entered).
 `removed_closed_in_order`, enter failure (in `enter_establishes_nested_order`), parent close
 (`fits_means_reverse_enter_order`, which spells out what `FitsL` means for `closeAllRev`), final stop
 `forced_exit_order_nested_partial`.
+
+## Second-generation model `Hio.Sched2` (`Model2.lean`; helpers `Lemmas2C02.lean`)
+Every theorem below is ported (suffix `2`, namespace `Hio.Sched2`, at the end of this file), with all
+exception kinds at steps and enters (`err | kbint | sysexit`; only `err` aborts), `cleanFails` on
+leaves and DoDoers, extend, remove:
+`forced_exit_before_return2`, `group_exit_balanced2` (no hypothesis), `forced_close_reverse_nested2`,
+`children_before_parent2`, `children_before_parent_enter_fail2` (any kind `x`),
+`children_before_parent_raised2` (covers ALL raise paths of a DoDoer, including its own failing clean
+after it finished by itself: then the closed list is `[]` and `pre` ends with `clean`),
+`clean_group_has_no_live_child2` (self-finish: `clean, exit, exitEnd`, no live child, and the result
+is `.finished` iff `cleanFails = false`, else `.raised .err`), `deque_keeps_enter_order2_partial`,
+`enter_keeps_spec_order2`, `forced_exit_order2_partial`, `fits_means_reverse_enter_order2`,
+`enter_establishes_nested_order2`, `removed_closed_in_order2`, `cycle_keeps_nested_order2_partial`,
+`dodoer_yield_keeps_nested_order2_partial`, `dodoer_raise_closes_in_order2_partial`,
+`forced_exit_order_nested2_partial`, `forced_exit_order_fails_after_extend2` (F03 witness).
+The same "Not done" items apply.  Nothing here depends on `Embed.lean`.
 
 ## Not done
 * "every forced close anywhere in the run closes a fitting list" is not stated as ONE predicate on the
@@ -319,3 +337,281 @@ theorem forced_exit_order_fails_after_extend :
   decide
 
 end Hio.Sched
+
+/-! ## The same property on the second-generation model `Hio.Sched2` (`Model2.lean`)
+
+Exception kinds (`err | kbint | sysexit`, abort context for `err` only), enters raising any kind,
+`cleanFails` on leaves and DoDoers.  Names carry a `2`; helpers in `Lemmas2C02.lean`
+(`Hio.Sched2.C02`, with `liveIdsL`, `stepsNoExtend`, `specAllStepsL`, `rtAllStepsL`, `Fits`, `FitsL`
+restated for `RT2`/`Spec2`).  Independent of `Embed.lean`. -/
+namespace Hio.Sched2
+open Hio.Sched (Id Kind Ev ev countK)
+open C02
+variable {τ : Type}
+
+/-! ### (B2) -/
+theorem forced_close_reverse_nested2 (now : τ) (ds a b : List (RT2 τ)) :
+    closeAllRev now ds = (ds.reverse.map (closeRT now)).flatten
+    ∧ closeAllRev now (a ++ b) = closeAllRev now b ++ closeAllRev now a
+    ∧ stopEvs now ds
+        = ev 0 .stopBeg now :: ((ds.reverse.map (closeRT now)).flatten ++ [ev 0 .stopEnd now]) := by
+  refine ⟨closeAllRev_eq_flatten now ds, closeAllRev_append now a b, ?_⟩
+  simp [stopEvs, closeAllRev_eq_flatten now ds]
+
+/-! ### (C2) children before parent -/
+theorem children_before_parent2 (now : τ) (i : Id) (r t : τ) (a : Bool) (p : List (Spec2 τ)) (d : List Id)
+    (deeds : List (RT2 τ)) (cf : Bool) :
+    closeRT now (.group i r t a p d deeds cf)
+      = ev i .cease now :: ev i .exit now :: (closeAllRev now deeds ++ [ev i .exitEnd now])
+    ∧ (∀ j, countK .exit j (closeAllRev now deeds) = (liveIdsL deeds).count j)
+    ∧ (∀ j, countK .enter j (closeAllRev now deeds) = 0) := by
+  refine ⟨by simp [closeRT], fun j => (closeAllRev_count now j deeds).1, fun j => (closeAllRev_count now j deeds).2⟩
+
+/-- a kid's enter raises an exception of ANY kind `x` (or its clean fails at enter): the kids entered
+so far are closed between the DoDoer's `exit` and `exitEnd` -/
+theorem children_before_parent_enter_fail2 (now : τ) (i : Id) (t : τ) (a : Bool) (kids pool : List (Spec2 τ))
+    (cf : Bool) (es : List (Ev τ)) (r : Option (RT2 τ)) (x : Exn2)
+    (h : enterSpec now (.group i t a kids pool cf) = (es, r, some x)) :
+    ∃ pre ds, es = pre ++ [ev i .exit now] ++ closeAllRev now ds ++ [ev i .exitEnd now]
+      ∧ ∀ j, countK .enter j pre = countK .exit j pre + (i :: liveIdsL ds).count j :=
+  enterSpec_group_fail_shape now i t a kids pool cf es r x h
+
+example : ∃ es, enterSpec (0 : Nat) gFailSpec = (es, none, some .kbint) := ⟨_, rfl⟩
+
+section Timed
+variable [Add τ] [LE τ] [DecidableRel (α := τ) (· ≤ ·)] [OfNat τ 0] [BEq τ]
+
+/-- EVERY way a DoDoer's `do` raises (a deed raised any kind, a deed's clean failed, an enter inside
+extend raised, or the DoDoer's own clean failed after it finished by itself — then `ds = []`): what
+was still live in its deque (`ds`, by the balance) is closed between its `exit` and `exitEnd` -/
+theorem children_before_parent_raised2 (now : τ) (i : Id) (r tock : τ) (always : Bool) (pool : List (Spec2 τ))
+    (doers : List Id) (deeds : List (RT2 τ)) (cf : Bool) (es : List (Ev τ)) (x : Exn2)
+    (h : resumeGroup now (.group i r tock always pool doers deeds cf) = (es, .raised x)) :
+    ∃ pre ds, es = pre ++ [ev i .exit now] ++ closeAllRev now ds ++ [ev i .exitEnd now]
+      ∧ ∀ j, countK .enter j pre + (liveIdsL deeds).count j
+              = countK .exit j pre + (liveIdsL ds).count j :=
+  resumeGroup_raised_shape now i r tock always pool doers deeds cf es x h
+
+example : ∃ es, resumeGroup 0 gRaise = (es, .raised .kbint) := ⟨_, rfl⟩
+/-- a deed returns but its clean action raises: the DoDoer raises `.err` with deed 8 still live -/
+example : ∃ es, resumeGroup 0 gLeafCleanFail = (es, .raised .err) := ⟨_, rfl⟩
+
+/-- a DoDoer that finishes by itself (its cycle did not raise, it does not yield): it logs
+`clean, exit, exitEnd` with no deed of it live any more, and either its clean action succeeded
+(`.finished`) or failed (`cleanFails`, `.raised .err` reaches the parent) -/
+theorem clean_group_has_no_live_child2 (now : τ) (i : Id) (r tock : τ) (always : Bool) (pool : List (Spec2 τ))
+    (doers : List Id) (deeds : List (RT2 τ)) (cf : Bool) (es : List (Ev τ)) (res : Res2 τ)
+    (h : resumeGroup now (.group i r tock always pool doers deeds cf) = (es, res))
+    (hr : (runCycle pool now tock i deeds { doers := doers }).2.2.2 = none)
+    (hy : ∀ rt t, res ≠ .yielded rt t) :
+    (∃ pre, es = pre ++ [ev i .clean now, ev i .exit now, ev i .exitEnd now]
+      ∧ ∀ j, countK .enter j pre + (liveIdsL deeds).count j = countK .exit j pre)
+    ∧ ((cf = true ∧ res = .raised .err) ∨ (cf = false ∧ res = .finished)) :=
+  resumeGroup_self_finish_shape now i r tock always pool doers deeds cf es res h hr hy
+
+example : ∃ es, resumeGroup 0 gFinish = (es, .finished) := ⟨_, rfl⟩
+example : ∃ es, resumeGroup 0 gCleanFail = (es, .raised .err) := ⟨_, rfl⟩
+example : (runCycle [] 0 0 2 [.leaf 3 0 [⟨[], .ret none⟩] false] { doers := [3] }).2.2.2 = (none : Option Exn2) := rfl
+
+/-! ### (A2) full strength: all exception kinds at steps and enters, cleanFails, extend, remove -/
+theorem forced_exit_before_return2 (pool : List (Spec2 τ)) (tock start : τ) (limit : Option τ) (fuel : Nat)
+    (specs : List (Spec2 τ)) :
+    ∀ i, countK .enter i (doistDo pool tock start limit fuel specs).evs
+          = countK .exit i (doistDo pool tock start limit fuel specs).evs :=
+  fun i => doistDo_count pool tock start limit fuel specs i
+
+theorem group_exit_balanced2 (pool : List (Spec2 τ)) (tock start : τ) (limit : Option τ) (fuel : Nat)
+    (specs : List (Spec2 τ)) :
+    ∀ i, countK .exitEnd i (doistDo pool tock start limit fuel specs).evs
+          ≤ countK .exit i (doistDo pool tock start limit fuel specs).evs :=
+  fun i => doistDo_le pool tock start limit fuel specs i
+
+/-! ### (D2) -/
+theorem deque_keeps_enter_order2_partial (pool : List (Spec2 τ)) (now stock : τ) (sid : Id)
+    (un : List (RT2 τ)) (c : Cyc2 τ) (es : List (Ev τ)) (un' : List (RT2 τ)) (c' : Cyc2 τ) (x : Option Exn2)
+    (hg : levelNoExtend un = true)
+    (h : runCycle pool now stock sid un c = (es, un', c', x)) :
+    ((c'.pr ++ un').map RT2.id).Sublist ((c.pr ++ un).map RT2.id)
+    ∧ (levelNoExtend c.pr = true → levelNoExtend (c'.pr ++ un') = true) := by
+  have := runCycle_order pool now stock sid un c hg
+  rw [h] at this
+  exact this
+
+example : levelNoExtend [RT2.leaf 1 0 [y0] true, gRaise, RT2.leaf 4 0 [⟨[.remove [1]], .yieldT none⟩] false] = true := by
+  decide
+
+end Timed
+
+theorem enter_keeps_spec_order2 (now : τ) (specs : List (Spec2 τ)) :
+    ((enterList now specs).2.1.map RT2.id).Sublist (specs.map Spec2.id)
+    ∧ (topNoExtend specs = true → levelNoExtend (enterList now specs).2.1 = true)
+    ∧ (∀ i act steps cf rt, (enterSpec now (.leaf i act steps cf)).2.1 = some rt → rt = .leaf i now steps cf) := by
+  refine ⟨(enterList_order now specs).1, (enterList_order now specs).2, ?_⟩
+  intro i act steps cf rt h
+  cases act with
+  | ok => simp [enterSpec] at h; exact h.symm
+  | fail x => simp [enterSpec] at h
+  | done v => cases cf <;> simp [enterSpec] at h
+
+section Timed
+variable [Add τ] [LE τ] [DecidableRel (α := τ) (· ≤ ·)] [OfNat τ 0] [BEq τ]
+
+/-! ### (E2) -/
+theorem forced_exit_order2_partial (pool : List (Spec2 τ)) (tock start : τ) (limit : Option τ) (fuel : Nat)
+    (specs : List (Spec2 τ)) (hg : topNoExtend specs = true) :
+    ∃ pre ds, (doistDo pool tock start limit fuel specs).evs
+                = pre ++ stopEvs (doistDo pool tock start limit fuel specs).tyme ds
+      ∧ (ds.map RT2.id).Sublist (specs.map Spec2.id)
+      ∧ (ds.map RT2.id).Sublist ((pre.filter (fun e => e.kind == .enter)).map (·.id)) :=
+  doistDo_order_enter pool tock start limit fuel specs hg
+
+example : topNoExtend okSpecs = true := by decide
+/-- test (not the unbounded claim): DoDoer 2 raises SystemExit in cycle 2 (no abort) with its extended
+kid 6 live; exits are 3, 2 (6 inside), then the forced stop closes 4 before 1 -/
+example : ((doistDo [] 1 0 none 10 okSpecs).evs.filter (fun e => e.kind == .exit)).map (·.id) = [3, 2, 6, 4, 1] := by
+  decide
+
+end Timed
+
+/-! ### (G2) nested DoDoers, whole lifetime -/
+theorem fits_means_reverse_enter_order2 (now : τ) (ss : List (Spec2 τ)) (ds : List (RT2 τ)) (h : FitsL ss ds) :
+    closeAllRev now ds = (ds.reverse.map (closeRT now)).flatten
+    ∧ (ds.map RT2.id).Sublist (ss.map Spec2.id)
+    ∧ ∀ d, d ∈ ds → ∃ s, s ∈ ss ∧ Fits s d ∧ d.id = s.id ∧
+        ∀ i t a kids pool cf, s = .group i t a kids pool cf →
+          ∃ r t' a' p dd deeds cf', d = .group i r t' a' p dd deeds cf' ∧ FitsL kids deeds
+            ∧ closeRT now d
+                = ev i .cease now :: ev i .exit now :: (closeAllRev now deeds ++ [ev i .exitEnd now]) := by
+  refine ⟨closeAllRev_eq_flatten now ds, FitsL_ids ss ds h, ?_⟩
+  intro d hd
+  obtain ⟨s, hs, hf⟩ := FitsL_mem ss ds h d hd
+  refine ⟨s, hs, hf, Fits_id s d hf, ?_⟩
+  intro i t a kids pool cf hsg
+  subst hsg
+  obtain ⟨r, t', a', p, dd, deeds, cf', rfl, hk⟩ := Fits_group_inv i t a kids pool cf d hf
+  exact ⟨r, t', a', p, dd, deeds, cf', rfl, hk, by simp [closeRT]⟩
+
+example : FitsL nestKids nestDeeds := by simp [FitsL, Fits, nestKids, nestDeeds]
+
+theorem enter_establishes_nested_order2 (now : τ) (specs : List (Spec2 τ)) :
+    FitsL specs (enterList now specs).2.1
+    ∧ (specAllStepsL stepsNoExtend specs = true → rtAllStepsL stepsNoExtend (enterList now specs).2.1 = true)
+    ∧ (∀ i t a kids pool cf es r x, enterSpec now (.group i t a kids pool cf) = (es, r, some x) →
+        ∃ pre ds, es = pre ++ [ev i .exit now] ++ closeAllRev now ds ++ [ev i .exitEnd now] ∧ FitsL kids ds) :=
+  ⟨(enterList_fits now stepsNoExtend specs).1, (enterList_fits now stepsNoExtend specs).2,
+   fun i t a kids pool cf es r x h => enterSpec_group_fail_fits now i t a kids pool cf es r x h⟩
+
+theorem removed_closed_in_order2 (now : τ) (sid : Id) (un : List (RT2 τ)) (ids : List Id) (c : Cyc2 τ)
+    (ss : List (Spec2 τ)) (hf : FitsL ss (c.pr ++ un)) :
+    ∃ ds, (removeOp now sid un ids c).1 = ev sid .rmBeg now :: (closeAllRev now ds ++ [ev sid .rmEnd now])
+      ∧ FitsL ss ds := by
+  obtain ⟨ds, h1, h2⟩ := removeOp_closes_sublist now sid un ids c
+  exact ⟨ds, h1, FitsL_sublist ss h2 hf⟩
+
+section Timed
+variable [Add τ] [LE τ] [DecidableRel (α := τ) (· ≤ ·)] [OfNat τ 0] [BEq τ]
+
+theorem cycle_keeps_nested_order2_partial (pool : List (Spec2 τ)) (now stock : τ) (sid : Id)
+    (un : List (RT2 τ)) (c : Cyc2 τ) (es : List (Ev τ)) (un' : List (RT2 τ)) (c' : Cyc2 τ) (x : Option Exn2)
+    (hun : rtAllStepsL stepsNoExtend un = true) (hpr : rtAllStepsL stepsNoExtend c.pr = true)
+    (h : runCycle pool now stock sid un c = (es, un', c', x)) :
+    rtAllStepsL stepsNoExtend (c'.pr ++ un') = true
+    ∧ ∀ ss, FitsL ss (c.pr ++ un) → FitsL ss (c'.pr ++ un') := by
+  have := runCycle_fits now pool stock sid un c hun hpr
+  rw [h] at this
+  exact this
+
+example : rtAllStepsL stepsNoExtend nestDeeds = true := by decide
+
+theorem dodoer_yield_keeps_nested_order2_partial (now : τ) (i : Id) (r tock : τ) (always : Bool)
+    (pool : List (Spec2 τ)) (doers : List Id) (deeds : List (RT2 τ)) (cf : Bool) (es : List (Ev τ))
+    (rt' : RT2 τ) (t : τ)
+    (hg : rtAllStepsL stepsNoExtend deeds = true)
+    (h : resumeGroup now (.group i r tock always pool doers deeds cf) = (es, .yielded rt' t)) :
+    rtAllSteps stepsNoExtend rt' = true
+    ∧ ∀ s, Fits s (.group i r tock always pool doers deeds cf) → Fits s rt' := by
+  have := resumeGroup_fits now (.group i r tock always pool doers deeds cf)
+  dsimp only at this
+  exact this hg rt' t (by rw [h])
+
+example : ∃ es rt t, resumeGroup 0 (.group 2 0 0 false [] [3] [.leaf 3 0 [y0, y0] true] true) = (es, .yielded rt t) :=
+  ⟨_, _, _, rfl⟩
+
+/-- every raise path (incl. the DoDoer's own failing clean, `ds = []`) closes a list that fits the kids -/
+theorem dodoer_raise_closes_in_order2_partial (now : τ) (i : Id) (r tock : τ) (always : Bool)
+    (pool : List (Spec2 τ)) (doers : List Id) (deeds : List (RT2 τ)) (cf : Bool) (es : List (Ev τ)) (x : Exn2)
+    (kids : List (Spec2 τ))
+    (hg : rtAllStepsL stepsNoExtend deeds = true) (hf : FitsL kids deeds)
+    (h : resumeGroup now (.group i r tock always pool doers deeds cf) = (es, .raised x)) :
+    ∃ pre ds, es = pre ++ [ev i .exit now] ++ closeAllRev now ds ++ [ev i .exitEnd now]
+      ∧ FitsL kids ds ∧ rtAllStepsL stepsNoExtend ds = true :=
+  resumeGroup_raised_fits now i r tock always pool doers deeds cf es x kids hg hf h
+
+/-- two levels: the inner DoDoer 4 raises SystemExit in mid cycle (5 done and removed, 7 unvisited) -/
+example : ∃ es, resumeGroup 0 (.group 2 0 0 false [] [3, 4, 8] nestDeeds false) = (es, .raised .sysexit) := ⟨_, rfl⟩
+
+theorem forced_exit_order_nested2_partial (pool : List (Spec2 τ)) (tock start : τ) (limit : Option τ)
+    (fuel : Nat) (specs : List (Spec2 τ)) (hg : specAllStepsL stepsNoExtend specs = true) :
+    topNoExtend specs = true
+    ∧ ∃ pre ds, (doistDo pool tock start limit fuel specs).evs
+                  = pre ++ stopEvs (doistDo pool tock start limit fuel specs).tyme ds
+        ∧ FitsL specs ds ∧ (ds.map RT2.id).Sublist (specs.map Spec2.id) := by
+  refine ⟨topNoExtend_of_deep specs hg, ?_⟩
+  obtain ⟨pre, ds, h1, h2, _⟩ := doistDo_fits pool tock start limit fuel specs hg
+  exact ⟨pre, ds, h1, h2, FitsL_ids specs ds h2⟩
+
+example : specAllStepsL stepsNoExtend nestSpecs = true := by decide
+/-- test (not the unbounded claim): in cycle 2 leaf 6 removes 5 and returns, its clean fails: 4 closes 7,
+2 closes 8 then 3, the Doist closes 9 then 1 -/
+example : ((doistDo [] 1 0 none 10 nestSpecs).evs.filter (fun e => e.kind == .exit)).map (·.id)
+    = [5, 6, 4, 7, 2, 8, 3, 9, 1] := by decide
+
+end Timed
+
+/-! ### (F2) the F03 witness on Model2 -/
+theorem forced_exit_order_fails_after_extend2 :
+    ∀ f, f = doistDo [.leaf 5 .ok [y0, y0, y0, y0] false] 1 0 (some 2) 10
+              [.leaf 1 .ok [y0, y0, y0, y0] false,
+               .leaf 2 .ok [⟨[.extend [0]], .yieldT (some 0)⟩, y0, y0, y0] false,
+               .leaf 3 .ok [y0, y0, y0, y0] false] →
+      (f.evs.filter (fun e => e.kind == .enter)).map (·.id) = [1, 2, 3, 5]
+      ∧ (f.evs.filter (fun e => e.kind == .exit)).map (·.id) = [3, 2, 5, 1]
+      ∧ ¬ ([3, 2, 5, 1].reverse).Sublist [1, 2, 3, 5] := by
+  intro f hf
+  subst hf
+  decide
+
+end Hio.Sched2
+
+/-! ### Third-generation model (`Hio.Sched3`): ops issued from cease / exit actions — re-entrant forced shutdown
+
+`exit()` pops a deed before closing it and re-tests the deque, so a close action may `remove()` further doers (closed at
+once) or `extend()` (entered, appended, popped next).  Every doer that was entered is still exited before do()
+returns or raises — for EVERY program (all exception kinds, failing clean actions, extend / remove in steps and in
+cease / exit actions, duplicate ids); `starved = false` only says the model's close fuel `cf` sufficed.
+Proofs: HioModel/Sched/Thm3C02.lean. -/
+namespace Hio.Sched3
+variable {τ : Type} [Add τ] [LE τ] [DecidableRel (α := τ) (· ≤ ·)] [OfNat τ 0] [BEq τ]
+
+theorem forced_exit_before_return3_reentrant (cf : Nat) (pool : List (Spec3 τ)) (tock start : τ) (limit : Option τ)
+    (fuel : Nat) (specs : List (Spec3 τ)) :
+    (doistDo cf pool tock start limit fuel specs).starved = false →
+    ∀ i, Hio.Sched.countK .enter i (doistDo cf pool tock start limit fuel specs).evs
+          = Hio.Sched.countK .exit i (doistDo cf pool tock start limit fuel specs).evs :=
+  forced_exit_before_return3 cf pool tock start limit fuel specs
+
+theorem group_exit_balanced3_reentrant (cf : Nat) (pool : List (Spec3 τ)) (tock start : τ) (limit : Option τ)
+    (fuel : Nat) (specs : List (Spec3 τ)) :
+    ∀ i, Hio.Sched.countK .exitEnd i (doistDo cf pool tock start limit fuel specs).evs
+          ≤ Hio.Sched.countK .exit i (doistDo cf pool tock start limit fuel specs).evs :=
+  group_exit_balanced3_all cf pool tock start limit fuel specs
+
+/-- non-vacuity / test on literals: doer 3's exit action extends with pool doer 7 while the limit stop is closing
+everything; 7 is entered and exited inside that stop, nothing starves -/
+example :
+    let f := doistDo 50 [Spec3.leaf 7 .ok [⟨[], .yieldT (some 0)⟩] false [] []] (1 : Nat) 0 (some 2) 20
+      [Spec3.leaf 2 .ok [⟨[], .yieldT (some 0)⟩, ⟨[], .yieldT (some 0)⟩, ⟨[], .yieldT (some 0)⟩] false [] [],
+       Spec3.leaf 3 .ok [⟨[], .yieldT (some 0)⟩, ⟨[], .yieldT (some 0)⟩, ⟨[], .yieldT (some 0)⟩] false [] [.extend [0]]]
+    f.starved = false ∧ Hio.Sched.countK .enter 7 f.evs = 1 ∧ Hio.Sched.countK .exit 7 f.evs = 1 := by decide
+
+end Hio.Sched3
